@@ -825,8 +825,10 @@ class C25DataStore(Base):
     deltas equals the scheduler's store, with matching checksums."""
     NAME = 'c25'
     PID = 'C25'
-    KEYS = ('workflow', 'tasks', 'task_proxies', 'jobs', 'families',
-            'family_proxies', 'edges')
+    # order in which a protobuf client sees the parts of an "all" delta
+    # (field-number order of AllDeltas.ListFields())
+    KEYS = ('families', 'family_proxies', 'jobs', 'tasks', 'task_proxies',
+            'edges', 'workflow')
 
     def __init__(self, case, phase):
         super().__init__(case, phase)
@@ -871,6 +873,15 @@ class C25DataStore(Base):
             for key in self.KEYS:
                 sub = getattr(wire, key)
                 if sub.ListFields():
+                    if sub.reloaded:
+                        # hard reset of this part of the store (start-up,
+                        # reload): the client clears it and takes the
+                        # 'added' elements as the new content
+                        self.n['reloaded_deltas'] += 1
+                        if key == D.WORKFLOW:
+                            self.mirror[key].Clear()
+                        else:
+                            self.mirror[key].clear()
                     D.apply_delta(key, sub, self.mirror)
                     self.n['deltas_applied'] += 1
                     if hasattr(sub, 'checksum') and sub.checksum:
